@@ -22,7 +22,11 @@
 //	    below it;
 //	(D) Glob/WalkDir/ReadDir over every operand of <= n elements (literal and
 //	    wildcard elements, absolute and relative) on a fixed deeper tree,
-//	    Linux-typed against Windows-typed (patterns.go).
+//	    Linux-typed against Windows-typed (patterns.go);
+//	(E) every sequence <= n of the creating helpers of package avfs (MkHomeDir,
+//	    MkSystemDirs/SystemDirs: each user, each base path) and of namespace
+//	    calls on the users' home directories, on twins of each default
+//	    configuration, judged like (C) in role spelling (helpers.go).
 package main
 
 import (
@@ -150,6 +154,7 @@ func main() {
 		sst        staticStats
 		vst        volStats
 		pst        patStats
+		hst        helpStats
 		all        []bfs.Stats
 		harnessErr string
 		skipped    string
@@ -169,6 +174,16 @@ func main() {
 		if err := runDefaults(rep, &sst); err != nil {
 			harnessErr = "default configurations: " + err.Error()
 		}
+	}
+
+	// ---- part (E)
+	if consOK && harnessErr == "" {
+		if err := runHelpers(rep, *tier, &hst); err != nil {
+			harnessErr = "helpers: " + err.Error()
+		}
+
+		fmt.Printf("C17 helpers: systems=%d alphabet=%d users=%d sequences=%d (len<=%d) calls per side=%d not extended after a difference=%d\n",
+			len(hst.Systems), len(hst.Alphabet), len(hst.Users), hst.Sequences, hst.MaxLen, hst.Calls, hst.NotExpanded)
 	}
 
 	// ---- part (B)
@@ -351,6 +366,14 @@ func main() {
 		outcomes["patterns:"+k] += n
 	}
 
+	if len(hst.Sample) > 0 {
+		samples = append(samples, map[string]any{"part": "helpers", "fs": hst.Systems[0], "sequence": hst.Sample})
+	}
+
+	for k, n := range hst.OutcomeClasses {
+		outcomes["helpers:"+k] += n
+	}
+
 	code := rep.Finish()
 	if harnessErr != "" {
 		fmt.Fprintln(os.Stderr, "c17: harness error:", harnessErr)
@@ -362,21 +385,24 @@ func main() {
 		PropertyID: *id, Tier: *tier, Seed: ev.Seed(), Level: "model_checking",
 		Coverage: map[string]any{
 			"states": states, "transitions": trans, "traces_validated_against_impl": trans,
-			"evaluations": trans + vst.ChecksWindows + vst.ChecksLinux + sst.Checked + pst.Calls, "distinct_nontrivial": len(outcomes),
+			"evaluations": trans + vst.ChecksWindows + vst.ChecksLinux + sst.Checked + pst.Calls + hst.Checks, "distinct_nontrivial": len(outcomes),
 			"outcome_classes": outcomes,
 			"rule": "(C) every history of length <= bound over the portable call alphabet (namespace calls, Glob and WalkDir with the wildcard / the root at every depth from the volume root down; every path-taking call, Chdir included, also with its operands in each other spelling of the Windows type: forward slashes, volume left out, both - on the Windows-typed side only; systems +sys: also the calls on the default locations $TMP, $HOME, $HOMEUSER and CreateTemp/MkdirTemp with dir \"\") executed in lock-step on a fresh Linux-typed and a fresh Windows-typed real instance, oracle on every transition; " +
 				"(D) every operand of <= bound elements over the element alphabet, absolute and relative, given to Glob (all), WalkDir and ReadDir (operands without wildcard) on both instances holding the same fixed tree, from each current directory, results compared in portable spelling; " +
 				"(B) every sequence of length <= bound over the volume alphabet executed on a fresh real MemFS of each OS type against the set model; " +
 				"(A) fixed list of facts and failing calls; the default configurations (constructor's system directories x default / same-type identity manager): each default location is an existing directory on both types or on neither, CreateTemp/MkdirTemp with dir \"\" agree; " +
-				"states/transitions count part (C) only; evaluations = oracle evaluations of (A)+(B)+(C)+(D); " +
-				"distinct_nontrivial = distinct (call, Linux-typed outcome kind) classes observed in (C) and (D) (listed in outcome_classes, those of (D) prefixed patterns:; a call with spelled operands is a class of its own per spelling and per current directory at / below the volume root: Mkdir[rf cwd=below-root]/ok; those of (B) are in volumes.outcome_classes)",
+				"(E) every sequence of length <= bound over the helper alphabet (avfs.MkSystemDirs(vfs, avfs.SystemDirs(vfs, base)) and avfs.MkHomeDir(vfs, base, user) for each base path in {\"\", volume of the root} and each user; Mkdir and RemoveAll of the home directory of each added user) executed on fresh Linux-typed and Windows-typed real instances of each default configuration, the last call judged: same success/failure, per side what a successful helper documents to create is a directory (the POSIX half too: the home belongs to the user on a Linux-typed instance with an identity manager), equal trees in role spelling; a sequence after which the twins differ is not extended; " +
+				"states/transitions count part (C) only; evaluations = oracle evaluations of (A)+(B)+(C)+(D)+(E); " +
+				"distinct_nontrivial = distinct (call, Linux-typed outcome kind) classes observed in (C), (D) and (E) (listed in outcome_classes, those of (D) prefixed patterns:, those of (E) helpers:; a call with spelled operands is a class of its own per spelling and per current directory at / below the volume root: Mkdir[rf cwd=below-root]/ok; those of (B) are in volumes.outcome_classes)",
 			"samples":    samples,
 			"exhaustive": exh,
 			"bound": fmt.Sprintf("pair histories of length <= %d (completed %d) over names {a,b} depth <= 2 (+sys systems: plus $TMP, $TMP/a, $HOME, $HOMEUSER), operands spelled as Join gives them and, Windows-typed side, in the spellings {f: C:/a/b, r: \\a\\b, rf: /a/b} (%s); volume sequences of length <= %d over %d calls; "+
-				"pattern operands of <= %d elements over %d elements {%s}, absolute and relative, %d current directories, %d systems, one fixed tree of depth %d",
-				d, depthDone, spelledBound(*tier), vl, vst.AlphabetSize, pst.MaxElems, len(pst.Elements), strings.Join(pst.Elements, " "), len(pst.Cwds), len(pst.Systems), pst.MaxElems),
-			"systems": all, "static": sst, "volumes": vst, "patterns": pst,
-			"static_facts_checked": sst.Checked, "volume_sequences_enumerated": vst.Sequences,
+				"pattern operands of <= %d elements over %d elements {%s}, absolute and relative, %d current directories, %d systems, one fixed tree of depth %d; "+
+				"helper sequences of length <= %d over %d calls (users %s, base paths \"\" and the volume of the root), %d default configurations",
+				d, depthDone, spelledBound(*tier), vl, vst.AlphabetSize, pst.MaxElems, len(pst.Elements), strings.Join(pst.Elements, " "), len(pst.Cwds), len(pst.Systems), pst.MaxElems,
+				hst.MaxLen, len(hst.Alphabet), strings.Join(hst.Users, ","), len(hst.Systems)),
+			"systems": all, "static": sst, "volumes": vst, "patterns": pst, "helpers": hst,
+			"static_facts_checked": sst.Checked, "volume_sequences_enumerated": vst.Sequences, "helper_sequences_enumerated": hst.Sequences,
 			"known_findings_matched": rep.KnownMatched(), "skipped": skipped,
 			"violation_instances": rep.Total,
 		},
@@ -393,6 +419,7 @@ func main() {
 			"Glob patterns hold no '\\\\' (escape on the Linux type, separator on the Windows type) and are built like paths (each instance's Join under its root); the order of the matches is compared; part (D) runs in the harness configuration on the default volume (MemFS, OrefaFS) and on an added volume D: (MemFS)",
 			"link targets are relative only (an absolute path of one OS is not a portable operand); symbolic-link calls only on MemFS (OrefaFS does not advertise FeatSymlink)",
 			"spellings: on the Windows type '\\' and '/' are both separators and a path that starts with a separator is rooted on the volume of the current directory, so C:\\a\\b, C:/a/b, \\a\\b and /a/b name the same entry while the current directory is on C: (always the case here: each instance of part (C) lives on one volume, C: or the added D:); a spelled call is judged like the unspelled one (same success/failure as the Linux-typed twin, which is given /a/b, isomorphic trees, same current directory). Not spelled: the target of Symlink (content, not an operand), drive-relative paths (C:a), lower-case drive letters, UNC and \\\\?\\ forms, mixed separators inside one path",
+			"helpers (E): the exported functions of package avfs that take a file system and create something are MkHomeDir and MkSystemDirs (explicit list; generic functions cannot be enumerated by reflection); the pure ones they are built on (SystemDirs, HomeDir, HomeDirUser, TempDirUser, TempDir) are judged through them: what they name has to exist after the creating helper succeeded. Start states: the default configurations only (the helpers presuppose the system directories: without them the administrator's home is creatable on the Linux type alone, /root lying directly below the root, by documentation). Users: the administrator and added users of the identity manager of the file system (MemFS: the constructor's default and one of the same emulated type given explicitly) or, OrefaFS, of a MemIdm of the same OS type. Tree in role spelling = Lstat class of $HOME, $TMP, $HOMEOF(user) per user and everything below $TMP; the content of a user's home is not compared (the Windows type keeps the user's temporary directory there) but per side TempDirUser(user) has to be a directory after a successful MkHomeDir. The home of the administrator, $HOME and $TMP are not removed (nesting differs by documentation); the current directory stays on the volume of the root",
 			"drive-letter case of volume names is undocumented: the observed behaviour is recorded (coverage.volumes.drive_letter_case_observed) and only its consistency is checked",
 		},
 		Violations: rep.NewCount(),
@@ -402,8 +429,8 @@ func main() {
 		_ = ev.Write(filepath.Join(verifDir, "evidence", *id+".json"), e)
 	}
 
-	fmt.Printf("C17 summary: static checks=%d (failing calls=%d) | volume sequences=%d (len<=%d, %d calls) | pattern operands=%d (calls per side=%d) | pair states=%d transitions=%d histories<=%d completed=%d exhaustive=%v | distinct outcome classes=%d | violation signatures new=%d known=%d\n",
-		sst.Checked, sst.FailingCalls, vst.Sequences, vl, vst.Calls, pst.Operands, pst.Calls, states, trans, d, depthDone, exh, len(outcomes), rep.NewCount(), len(rep.KnownMatched()))
+	fmt.Printf("C17 summary: static checks=%d (failing calls=%d) | volume sequences=%d (len<=%d, %d calls) | pattern operands=%d (calls per side=%d) | helper sequences=%d (len<=%d) | pair states=%d transitions=%d histories<=%d completed=%d exhaustive=%v | distinct outcome classes=%d | violation signatures new=%d known=%d\n",
+		sst.Checked, sst.FailingCalls, vst.Sequences, vl, vst.Calls, pst.Operands, pst.Calls, hst.Sequences, hst.MaxLen, states, trans, d, depthDone, exh, len(outcomes), rep.NewCount(), len(rep.KnownMatched()))
 
 	if skipped != "" {
 		fmt.Println("C17:", skipped)
